@@ -281,6 +281,8 @@ type Obligation struct {
 	extra    []string // extra assertions local to this obligation
 	Desc     string
 	NoRetry    bool     // a recorded known finding: no extended-budget retry
+	Optional   bool        // a satisfiability probe whose refutation is not an alarm by itself (dead path)
+	PairPre    *Obligation // for an after-call probe: the probe taken just before the callee's postconditions were assumed
 	OwnerProps []string // for call-site preconditions: the properties the callee's contract serves
 }
 
@@ -373,11 +375,15 @@ var solvers = []solverSpec{
 var workDir string
 
 func runSolver(sp solverSpec, query string, timeoutS int, tag string) (status, out string, secs float64) {
+	return runSolverCtx(context.Background(), sp, query, timeoutS, tag)
+}
+
+func runSolverCtx(parent context.Context, sp solverSpec, query string, timeoutS int, tag string) (status, out string, secs float64) {
 	f := filepath.Join(workDir, sanitize(tag)+"."+sp.name+".smt2")
 	if err := os.WriteFile(f, []byte(query), 0o644); err != nil {
 		return "error", err.Error(), 0
 	}
-	ctx, cancel := context.WithTimeout(context.Background(), time.Duration(timeoutS+5)*time.Second)
+	ctx, cancel := context.WithTimeout(parent, time.Duration(timeoutS+5)*time.Second)
 	defer cancel()
 	argv := sp.argv(f, timeoutS)
 	cmd := exec.CommandContext(ctx, argv[0], argv[1:]...)
@@ -484,13 +490,15 @@ func Solve(o *Obligation, timeoutS int, confirm bool) *Result {
 			secs         float64
 		}
 		ch := make(chan rr, 3)
+		rctx, rcancel := context.WithCancel(context.Background())
+		defer rcancel()
 		for k := 1; k <= 3; k++ {
 			k := k
 			sp := solverSpec{"z3-new", func(f string, t int) []string {
 				return []string{"z3-new", fmt.Sprintf("smt.random_seed=%d", k*17), fmt.Sprintf("sat.random_seed=%d", k*17), fmt.Sprintf("-T:%d", t), f}
 			}}
 			go func() {
-				st, out, secs := runSolver(sp, query, ext, fmt.Sprintf("%s.retry%d", o.Name, k))
+				st, out, secs := runSolverCtx(rctx, sp, query, ext, fmt.Sprintf("%s.retry%d", o.Name, k))
 				ch <- rr{st, out, fmt.Sprintf("retry%d/z3-new", k), secs}
 			}()
 		}
@@ -505,6 +513,7 @@ func Solve(o *Obligation, timeoutS int, confirm bool) *Result {
 				if x.st == "sat" {
 					r.Model = parseModel(x.out)
 				}
+				rcancel() // decided: the other seeds are no longer needed
 			}
 		}
 	}
